@@ -1104,6 +1104,16 @@ func VerifC17MFuncsAny(shape int, single bool) {
 	f2 := `"F2"`
 	if single {
 		f2 = "true"
+		// a list whose LAST member handles a type that can never sit behind the untyped fast
+		// path (int16) must not hide that an earlier member (for string) applies to untyped values
+		if vrt.Bool("joinother") {
+			other := MarshalFunc(func(n int16) ([]byte, error) { return []byte(`"F3"`), nil })
+			if vrt.Bool("otherfirst") {
+				ms = JoinMarshalers(other, ms)
+			} else {
+				ms = JoinMarshalers(ms, other)
+			}
+		}
 	} else {
 		ms = JoinMarshalers(ms, MarshalFunc(func(b bool) ([]byte, error) { zz17FLog(1, false); return []byte(`"F2"`), nil }))
 	}
